@@ -4,13 +4,22 @@
    maddr := n (tag arg)*n        tag 0 ip4 / 1 ip6 (arg = class*65536+id), 2 dns, 3 dns4, 4 dns6,
                                  5 tcp, 6 udp, 7 ws, 8 wss, 9 quic-v1, 10 p2p, 11 other
    op    := 0 peer [maddr] order:[maddr] victims:[maddr]   add_known_address
-          | 1 maddr kind victim:[maddr]            dial failure (kind 0 connection, 1 address)
+          | 1 maddr kind victim:[maddr]            update_address_on_dial_failure; kind = the code of the
+                                                   DialError variant: outer + 4 * inner + 64 * innermost
+                                                   (0 Timeout, 1 + 4i AddressError, 2 + 4i DnsError,
+                                                   3 + 4i (+ 64j) NegotiationError, indices in the order of
+                                                   the enums of src/error.rs)
           | 2 peer maddr listener victim:[maddr]   connection established
           | 3 peer limit obs:[maddr]               AddressStore::addresses(limit)
           | 4 maddr                                probe: supported_transport, routing, parsers
           | 5 maddr                                register_listen_address
           | 6 n                                    hold n established outbound connections
-          | 7 peer outcome tcp:[maddr] ws:[maddr]  dial(peer) with the lists given to open()
+          | 7 peer outcome tcp:[maddr] ws:[maddr]  dial(peer) with the lists given to open(); failed attempts time out
+          | 9 peer outcome errs:[kind] tcp:[maddr] ws:[maddr]   the same, attempt i failing with errs[i mod |errs|]
+          | 8 peer maddr score victim:[maddr]      AddressStore::insert with a raw i32 score (biased by 2^31)
+          | 10 maddr res victims:[maddr]           dial_address; res 0 = connection established, k+1 = DialFailure of kind k
+          | 11 maddr                               PublicAddresses::add_address
+          | 12 maddr                               PublicAddresses::remove_address
    ([x] is a count-prefixed list.) The harness build has the websocket feature compiled in
    and quic compiled out; cases with other feature flags are not well-formed. *)
 From Coq Require Import List NArith ZArith Bool.
@@ -91,6 +100,13 @@ Definition p_victim : parser (option maddr) :=
 
 Definition p_peer : parser N := let* p := pN in if p <? NPEERS then pret p else pfail.
 
+Definition p_err : parser dial_error :=
+  let* kind := pN in match err_of_code kind with Some e => pret e | None => pfail end.
+
+Definition SCORE_BIAS : Z := 2147483648.
+Definition enc_score (z : Z) : N := Z.to_N (z + SCORE_BIAS).
+Definition dec_score (n : N) : Z := (Z.of_N n - SCORE_BIAS)%Z.
+
 Definition p_op : parser op :=
   let* tag := pN in
   match tag with
@@ -98,10 +114,9 @@ Definition p_op : parser op :=
          let* vs := plistb 1000 p_maddr in
          pret (OAdd p l o vs)
   | 1 => let* a := p_maddr in let* kind := pN in let* v := p_victim in
-         match kind with
-         | 0 => pret (ODialFailure a ConnFailure v)
-         | 1 => pret (ODialFailure a AddrFailure v)
-         | _ => pfail
+         match err_of_code kind with
+         | Some e => pret (ODialFailure a e v)
+         | None => pfail
          end
   | 2 => let* p := p_peer in let* a := p_maddr in let* l := pBool in let* v := p_victim in
          pret (OEstablished p a l v)
@@ -112,7 +127,22 @@ Definition p_op : parser op :=
   | 6 => let* n := pN in if n <? 9 then pret (OHold (N.to_nat n)) else pfail
   | 7 => let* p := p_peer in let* oc := pN in
          let* t := plistb 1000 p_maddr in let* w := plistb 1000 p_maddr in
-         if oc <? 1000 then pret (ODial p (N.to_nat oc) t w) else pfail
+         if oc <? 1000 then pret (ODial p (N.to_nat oc) [] t w) else pfail
+  | 9 => let* p := p_peer in let* oc := pN in let* es := plistb 1000 p_err in
+         let* t := plistb 1000 p_maddr in let* w := plistb 1000 p_maddr in
+         if oc <? 1000 then pret (ODial p (N.to_nat oc) es t w) else pfail
+  | 8 => let* p := p_peer in let* a := p_maddr in let* sc := pN in let* v := p_victim in
+         if sc <? 4294967296 then pret (OInsert p a (dec_score sc) v) else pfail
+  | 10 => let* a := p_maddr in let* res := pN in let* vs := plistb 3 p_maddr in
+          match res with
+          | 0 => pret (ODialAddr a None vs)
+          | _ => match err_of_code (res - 1) with
+                 | Some e => pret (ODialAddr a (Some e) vs)
+                 | None => pfail
+                 end
+          end
+  | 11 => let* a := p_maddr in pret (OPublicAdd a)
+  | 12 => let* a := p_maddr in pret (OPublicRemove a)
   | _ => pfail
   end.
 
@@ -129,10 +159,6 @@ Definition p_case : parser (cfg * list op) :=
 Definition decode_case (l : list N) : option (cfg * list op) := pall p_case l.
 
 (* ---------- encoders ---------- *)
-
-Definition SCORE_BIAS : Z := 2147483648.
-Definition enc_score (z : Z) : N := Z.to_N (z + SCORE_BIAS).
-Definition dec_score (n : N) : Z := (Z.of_N n - SCORE_BIAS)%Z.
 
 (* a sort key that is injective on canonical addresses; numerically, shorter addresses first *)
 Definition comp_digit (x : comp) : N :=
@@ -158,28 +184,41 @@ Definition enc_parsed (r : option parsed) : list N :=
 Definition transport_code (t : transport) : N :=
   match t with TTcp => 0 | TWs => 1 | TQuic => 2 end.
 
-Definition is_bad (r : ins) : bool := match r with BadChoice => true | _ => false end.
-
 (* the peer whose store an operation touches *)
 Definition op_peer (o : op) : option N :=
   match o with
   | OAdd p _ _ _ => Some p
   | ODialFailure a _ _ => match last a (Other 0) with P2p p => Some p | _ => None end
-  | OEstablished p _ l _ => if l then None else Some p
-  | ODial p _ _ _ => Some p
+  | OEstablished p _ _ _ => Some p
+  | ODial p _ _ _ _ => Some p
+  | OInsert p _ _ _ => Some p
+  | ODialAddr a _ _ => match last a (Other 0) with P2p p => Some p | _ => None end
   | _ => None
   end.
 
-Definition enc_out (o : op) (b' : book) (r : out) : list N :=
+Definition dump_addrs (l : list maddr) : list N :=
+  enc_list enc_maddr (map snd (sort_by fst (map (fun a => (maddr_key a, a)) l))).
+
+Definition verdict_code (v : dial_addr_verdict) : list N :=
+  match v with
+  | DAOk t q => [0; transport_code t; q]
+  | DALimit => [1]
+  | DASelf => [2]
+  | DAPeerIdMissing => [6]
+  | DAUnsupported => [7]
+  end.
+
+Definition enc_out (c : cfg) (o : op) (st' : state) (r : out) : list N :=
+  let b' := bk st' in
   let d := match op_peer o with Some p => dump (get_or_empty p b') | None => [] end in
   match r with
   | RAdd n bad => [0; n; b2n bad] ++ d
-  | RIns None => [1; 0]
+  | RIns None => [1; 0] ++ d
   | RIns (Some x) => [1; 1; b2n (is_bad x)] ++ d
   | RAddrs None => [3; 9]
   | RAddrs (Some l) => [3; 0] ++ enc_list enc_entry l
   | RProbe sup rt ptcp pws _ _ => [4; b2n sup; transport_code rt] ++ enc_parsed ptcp ++ enc_parsed pws
-  | RListen => [5]
+  | RListen => [5] ++ dump_addrs (dedup (listen_set c (lst st')))
   | RHold n => [6; N.of_nat n]
   | RDial DLimit => [7; 1]
   | RDial DSelf => [7; 2]
@@ -187,6 +226,11 @@ Definition enc_out (o : op) (b' : book) (r : out) : list N :=
   | RDial DUnroutable => [7; 8]
   | RDial DBadChoice => [7; 9]
   | RDial (DTried t w) => [7; 0] ++ enc_list enc_entry t ++ enc_list enc_entry w ++ d
+  | RDialAddr v bad => [10] ++ verdict_code v ++ [b2n bad] ++ d
+  | RPub r =>
+      [11; match r with PubAdded true => 0 | PubAdded false => 1 | PubEmpty => 2 | PubDifferent => 3 end]
+      ++ dump_addrs (pubs st')
+  | RPubRemoved b => [12; b2n b] ++ dump_addrs (pubs st')
   end.
 
 Definition K : scorecfg := default_scores.
@@ -194,7 +238,7 @@ Definition K : scorecfg := default_scores.
 Fixpoint run_trace (c : cfg) (st : state) (h : list op) : list N :=
   match h with
   | [] => []
-  | o :: t => let '(st1, r) := step c K st o in enc_out o (bk st1) r ++ run_trace c st1 t
+  | o :: t => let '(st1, r) := step c K st o in enc_out c o st1 r ++ run_trace c st1 t
   end.
 
 Definition run_case (l : list N) : list N :=
@@ -226,32 +270,51 @@ Definition p_parsed : parser (option parsed) :=
 
 Inductive obs :=
 | BAdd (n : N) (s : store)
-| BIns0
+| BIns0 (s : option store)
 | BIns (s : store)
 | BAddrs (l : option store)
 | BProbe (sup : bool) (rt : N) (ptcp pws : option parsed)
-| BListen
+| BListen (l : list maddr)
 | BHold (n : nat)
 | BDialCode (code : N)
-| BDialTried (t w s : store).
+| BDialTried (t w s : store)
+| BDialAddr (code : N) (s : option store)
+| BPub (code : N) (l : list maddr)
+| BPubRemoved (b : bool) (l : list maddr).
 
 Definition p_obs : parser obs :=
   let* tag := pN in
   match tag with
   | 0 => let* n := pN in let* _ := pN in let* s := p_store in pret (BAdd n s)
   | 1 => let* f := pN in
-         if f =? 0 then pret BIns0 else let* _ := pN in let* s := p_store in pret (BIns s)
+         if f =? 0 then pret (BIns0 None) else let* _ := pN in let* s := p_store in pret (BIns s)
   | 3 => let* f := pN in
          if f =? 0 then let* l := p_store in pret (BAddrs (Some l)) else pret (BAddrs None)
   | 4 => let* sup := pBool in let* rt := pN in let* a := p_parsed in let* b := p_parsed in
          pret (BProbe sup rt a b)
-  | 5 => pret BListen
+  | 5 => let* l := plistb 100000 p_maddr in pret (BListen l)
   | 6 => let* n := pN in if n <? 1000 then pret (BHold (N.to_nat n)) else pfail
   | 7 => let* code := pN in
          if code =? 0 then
            let* t := p_store in let* w := p_store in let* s := p_store in pret (BDialTried t w s)
          else pret (BDialCode code)
+  | 10 => let* code := pN in
+          let* _ := (if code =? 0 then (let* _ := pN in pN) else pret 0) in
+          let* _ := pN in
+          pret (BDialAddr code None)
+  | 11 => let* code := pN in let* l := plistb 100000 p_maddr in pret (BPub code l)
+  | 12 => let* b := pBool in let* l := plistb 100000 p_maddr in pret (BPubRemoved b l)
   | _ => pfail
+  end.
+
+(* the dump that follows a dial_address record when the address ends in /p2p, and an inbound
+   connection's record *)
+Definition p_obs_for (o : op) : parser obs :=
+  let* ob := p_obs in
+  match ob, op_peer o with
+  | BDialAddr code _, Some _ => let* s := p_store in pret (BDialAddr code (Some s))
+  | BIns0 _, Some _ => let* s := p_store in pret (BIns0 (Some s))
+  | _, _ => pret ob
   end.
 
 (* ---------- the oracle ---------- *)
@@ -304,61 +367,99 @@ Definition add_ok (c : cfg) (k : scorecfg) (ls : list maddr) (peer : N) (addrs :
 Definition new_score_of (k : scorecfg) (a : maddr) (e : Z) : Z :=
   if is_global a then sat_add e (bonus k) else e.
 
-(* a dial result for address a' with event score e *)
-Definition rescore_ok (k : scorecfg) (a' : maddr) (e : Z) (s s' : store) : bool :=
+Definition in_i32b (z : Z) : bool := Z.leb I32_MIN z && Z.leb z I32_MAX.
+(* what the property demands of the score an event leaves behind: a failure (of whatever kind)
+   strictly negative, a success strictly positive, a raw insert the given score (plus the
+   public-address bonus when the record is new) *)
+Definition fail_z (z : Z) : bool := Z.ltb z 0 && in_i32b z.
+Definition win_z (k : scorecfg) (z : Z) : bool := Z.ltb 0 z && in_i32b z && Z.eqb z (sc_established k).
+
+(* a dial result for address a' that must leave a score satisfying okz on a stored address
+   (oknew on a record created by the event) *)
+Definition rescore_ok (k : scorecfg) (a' : maddr) (okz oknew : Z -> bool) (s s' : store) : bool :=
   store_ok k s' &&
   match find a' s with
   | Some _ =>
-      (* exactly the address used is re-scored, to the event's score *)
+      (* exactly the address used is re-scored *)
       (length s' =? length s)%nat &&
       forallb (fun x => match find (fst x) s' with
-                        | Some z => if maddr_eqb (fst x) a' then Z.eqb z e else Z.eqb z (snd x)
+                        | Some z => if maddr_eqb (fst x) a' then okz z else Z.eqb z (snd x)
                         | None => false
                         end) s
   | None =>
       forallb (kept_or_min k (fun _ => false) s s') s &&
       (count_gone s s' <=? count_new s s')%nat &&
-      forallb (fun x => mem (fst x) s ||
-                        (maddr_eqb (fst x) a' &&
-                         (Z.eqb (snd x) e || Z.eqb (snd x) (new_score_of k a' e)))) s'
+      forallb (fun x => mem (fst x) s || (maddr_eqb (fst x) a' && oknew (snd x))) s'
   end.
 
+(* nothing changed *)
+Definition same_store (s s' : store) : bool :=
+  (length s' =? length s)%nat &&
+  forallb (fun x => match find (fst x) s' with Some z => Z.eqb z (snd x) | None => false end) s.
+
 (* the outcome of a dial: the address that connected gets the established score, the attempts
-   that failed get the failure score, everything else is untouched *)
+   that failed get a failure score, everything else is untouched *)
 Definition outcome_ok (k : scorecfg) (s s' : store) (won : option maddr) (failed : list maddr) : bool :=
   (length s' =? length s)%nat &&
   forallb (fun x =>
-             let want :=
-               if match won with Some a => maddr_eqb (fst x) a | None => false end then sc_established k
-               else if existsb (maddr_eqb (fst x)) failed then sc_failure k
-               else snd x in
-             match find (fst x) s' with Some z => Z.eqb z want | None => false end) s.
+             match find (fst x) s' with
+             | Some z =>
+                 if match won with Some a => maddr_eqb (fst x) a | None => false end then win_z k z
+                 else if existsb (maddr_eqb (fst x)) failed then fail_z z
+                 else Z.eqb z (snd x)
+             | None => false
+             end) s.
 
-Record ostate := mkO { o_bk : book; o_lst : list maddr; o_held : nat }.
+(* dial_address: attributable and dialable by an enabled transport (the host may be unspecified),
+   not literally a listen address *)
+Definition parsed_weak (r : option parsed) (peer : N) : bool :=
+  match r with Some (_, _, Some q) => q =? peer | _ => false end.
+Definition dial_ok_weak (c : cfg) (ls : list maddr) (peer : N) (a : maddr) : bool :=
+  names peer a &&
+  existsb (fun t => enabled c t && parsed_weak (parse t a) peer) [TTcp; TWs; TQuic] &&
+  negb (existsb (maddr_eqb a) (listen_set c ls)).
+
+Definition set_eqb (l1 l2 : list maddr) : bool :=
+  nodup_addrs l1 && nodup_addrs l2 &&
+  forallb (fun a => existsb (maddr_eqb a) l2) l1 && forallb (fun a => existsb (maddr_eqb a) l1) l2.
+
+Record ostate := mkO { o_bk : book; o_lst : list maddr; o_held : nat; o_pubs : list maddr }.
 
 Definition step_ok (c : cfg) (k : scorecfg) (st : ostate) (o : op) (ob : obs) : option ostate :=
   let b := o_bk st in
-  let upd (b' : book) := Some (mkO b' (o_lst st) (o_held st)) in
+  let upd (b' : book) := Some (mkO b' (o_lst st) (o_held st) (o_pubs st)) in
   match o, ob with
   | OAdd peer addrs _ _, BAdd n s' =>
       if add_ok c k (o_lst st) peer addrs (get_or_empty peer b) s' n then upd (put peer s' b) else None
-  | ODialFailure a f _, _ =>
+  | ODialFailure a _ _, _ =>
       match last a (Other 0), ob with
       | P2p p, BIns s' =>
-          if rescore_ok k (with_peer p a) (failure_score k f) (get_or_empty p b) s'
+          if rescore_ok k (with_peer p a) fail_z fail_z (get_or_empty p b) s'
           then upd (put p s' b) else None
       | P2p _, _ => None
-      | _, BIns0 => Some st
+      | _, BIns0 None => Some st
       | _, _ => None
       end
   | OEstablished peer a listener _, _ =>
       match listener, ob with
-      | true, BIns0 => Some st
+      | true, BIns0 (Some s') =>
+          (* the address of an inbound connection is not remembered *)
+          if same_store (get_or_empty peer b) s' && store_ok k s' then upd (put peer s' b) else None
       | false, BIns s' =>
-          if rescore_ok k (with_peer peer a) (sc_established k) (get_or_empty peer b) s'
+          if rescore_ok k (with_peer peer a) (win_z k)
+               (fun z => Z.ltb 0 z && (Z.eqb z (sc_established k) ||
+                                       Z.eqb z (new_score_of k (with_peer peer a) (sc_established k))))
+               (get_or_empty peer b) s'
           then upd (put peer s' b) else None
       | _, _ => None
       end
+  | OInsert peer a sc _, BIns s' =>
+      let s := get_or_empty peer b in
+      let a' := with_peer peer a in
+      (* score 0 on a known address is a rediscovery: nothing may change *)
+      if (if Z.eqb sc 0 && mem a' s then same_store s s' && store_ok k s'
+          else rescore_ok k a' (Z.eqb sc) (fun z => Z.eqb z sc || Z.eqb z (new_score_of k a' sc)) s s')
+      then upd (put peer s' b) else None
   | ODialAddrs peer limit obsin, BAddrs (Some l) =>
       if list_eqb maddr_eqb (map fst l) obsin && addresses_ok limit (get_or_empty peer b) l
       then Some st else None
@@ -376,12 +477,15 @@ Definition step_ok (c : cfg) (k : scorecfg) (st : ostate) (o : op) (ob : obs) : 
         | _ => None
         end
       else Some st
-  | OListen a, BListen => Some (mkO b (o_lst st ++ [a]) (o_held st))
+  | OListen a, BListen l =>
+      (* every listen address is kept with and without /p2p/<local> *)
+      let ls := o_lst st ++ [a] in
+      if set_eqb l (dedup (listen_set c ls)) then Some (mkO b ls (o_held st) (o_pubs st)) else None
   | OHold _, BHold n =>
       (* the outbound limit is never exceeded *)
       if match max_out c with Some m => (n <=? m)%nat | None => true end
-      then Some (mkO b (o_lst st) n) else None
-  | ODial peer _ _ _, BDialCode code =>
+      then Some (mkO b (o_lst st) n (o_pubs st)) else None
+  | ODial peer _ _ _ _, BDialCode code =>
       let s := get_or_empty peer b in
       match code with
       | 1 => (* refused for the limit only when there is no free outbound capacity *)
@@ -395,9 +499,9 @@ Definition step_ok (c : cfg) (k : scorecfg) (st : ostate) (o : op) (ob : obs) : 
              then Some st else None
       | _ => None
       end
-  | ODial peer outcome tcp ws, BDialTried t w s' =>
+  | ODial peer outcome _ tcp ws, BDialTried t w s' =>
       let s := get_or_empty peer b in
-      match free_capacity c (mkState b (o_lst st) (o_held st)) (length s) with
+      match free_capacity c (mkState b (o_lst st) (o_held st) (o_pubs st)) (length s) with
       | None => None
       | Some limit =>
           let n := (length tcp + length ws)%nat in
@@ -416,6 +520,45 @@ Definition step_ok (c : cfg) (k : scorecfg) (st : ostate) (o : op) (ob : obs) : 
              store_ok k s' && outcome_ok k s s' won failed
           then upd (put peer s' b) else None
       end
+  | ODialAddr a res _, BDialAddr code so =>
+      match last a (Other 0), so with
+      | P2p q, Some s' =>
+          let s := get_or_empty q b in
+          if code =? 0 then
+            (* dialed: there was free outbound capacity; whatever is newly remembered names its
+               peer, is dialable by an enabled transport and is not a listen address; the result of
+               the dial re-scores exactly that address *)
+            let okz := match res with Some _ => fail_z | None => win_z k end in
+            let oknew := match res with
+                         | Some _ => fail_z
+                         | None => fun z => Z.ltb 0 z && (Z.eqb z (sc_established k) ||
+                                                          Z.eqb z (new_score_of k a (sc_established k)))
+                         end in
+            if match free_capacity c (mkState b (o_lst st) (o_held st) (o_pubs st)) 0 with
+               | Some _ => true | None => false end &&
+               (mem a s || negb (mem a s') || dial_ok_weak c (o_lst st) q a) &&
+               rescore_ok k a okz oknew s s'
+            then upd (put q s' b) else None
+          else if same_store s s' && store_ok k s' then upd (put q s' b) else None
+      | P2p _, None => None
+      | _, None => if code =? 0 then None else Some st
+      | _, Some _ => None
+      end
+  | OPublicAdd a, BPub code l =>
+      (* a public address is non-empty and ends in /p2p/<local>: the address itself when it
+         already does, with the id appended when it ends in no peer id; nothing else changes *)
+      let ps := o_pubs st in
+      let a' := match last a (Other 0) with P2p _ => a | _ => a ++ [P2p (local_peer c)] end in
+      let valid := match a with [] => false | _ => names (local_peer c) a' end in
+      if (if valid then
+            set_eqb l (if existsb (maddr_eqb a') ps then ps else ps ++ [a']) &&
+            (code =? (if existsb (maddr_eqb a') ps then 1 else 0))
+          else set_eqb l ps && ((code =? 2) || (code =? 3)))
+      then Some (mkO b (o_lst st) (o_held st) l) else None
+  | OPublicRemove a, BPubRemoved r l =>
+      let ps := o_pubs st in
+      if set_eqb l (remove_addr a ps) && Bool.eqb r (existsb (maddr_eqb a) ps)
+      then Some (mkO b (o_lst st) (o_held st) l) else None
   | _, _ => None
   end.
 
@@ -423,7 +566,7 @@ Fixpoint steps_ok (c : cfg) (k : scorecfg) (st : ostate) (h : list op) : parser 
   match h with
   | [] => pret true
   | o :: t =>
-      let* ob := p_obs in
+      let* ob := p_obs_for o in
       match step_ok c k st o ob with
       | Some st' => steps_ok c k st' t
       | None => pret false
@@ -435,7 +578,7 @@ Fixpoint steps_ok (c : cfg) (k : scorecfg) (st : ostate) (h : list op) : parser 
 Definition prop_ok (case trace : list N) : bool :=
   match decode_case case, trace with
   | Some (c, h), 1 :: body =>
-      match steps_ok c K (mkO [] [] 0) h body with
+      match steps_ok c K (mkO [] [] 0 []) h body with
       | Some (ok, rest) => if ok then match rest with [] => true | _ => false end else false
       | None => false
       end
